@@ -14,10 +14,11 @@ Definition hook_reject_leaves_residue_refuted := hook_reject_leaves_residue_coun
 Definition failed_add_modifies_memory_refuted := failed_add_modifies_memory_counterexample.
 (** A linear-state clear whose storage call fails has already emptied the memory. *)
 Definition failed_clear_empties_memory_refuted := failed_clear_empties_memory_counterexample.
-(** Reads of the INDEXED state that purge expired items swallow storage errors (by design of the
-    code: the error is logged); the linear state's Search and FindRules return them. *)
+(** The purge that ends a read (or a Rem) logs the storage errors of its removals and drops them,
+    in both state kinds (since the repair of D52: before it the linear state's Search and FindRules
+    returned them). *)
 Definition purge_errors_swallowed := purge_errors_swallowed_example.
-Definition purge_errors_reported_linear := purge_errors_reported_linear_example.
+Definition purge_errors_dropped_linear := purge_errors_dropped_linear_example.
 (** Load re-generates the id of a property fact stored under another key. *)
 Definition load_regenerates_property_ids := load_expired_record_in_facts_counterexample.
 (** Premises of the theorems are satisfiable: a concrete mixed system. *)
